@@ -104,9 +104,9 @@ Theorem C01_class_with_mixins_accepts :
     (forall fm, In fm frs -> unpack_fragment S fm None = false ->
        exists out pub', parse_type_def F C S frs [] (pascal_s (fr_name fm)) (fr_on fm) (fr_sel fm) false
                                         (fr_mixins fm) None = Ok (out, pub', false) /\ incl out cls) ->
-    forall g fuel pub cn rt r sels at_ tv top nested out pub' k l N kv fc,
+    forall g fuel pub cn rt r sels at_ tv top out pub' k l N kv fc,
       fuel <= F -> parse_type_def fuel C S frs pub cn r sels at_ [] tv = Ok (out, pub', false) ->
-      sels_okM g cov C S frs top nested rt r sels = true -> tv_ok nested rt tv ->
+      sels_okM g cov C S frs top at_ rt r sels = true -> tv_ok rt tv ->
       (at_ = true -> has_typename sels = true) -> table_ok cls out ->
       collect k S frs rt false sels = Some l -> incl l N -> amb C S frs N rt kv fc ->
       class_good S F cls g cn kv.
@@ -116,9 +116,9 @@ Print Assumptions C01_class_with_mixins_accepts.
 (* the same at the level of one generated class (any nesting depth below it), for any class table that
    resolves the generated names to the generated classes *)
 Theorem C01_object_accepts :
-  forall C S frs fuel g cov nested pub cn rt r sels at_ tv out pub' cs fc kv n,
+  forall C S frs fuel g cov pub cn rt r sels at_ tv out pub' cs fc kv n,
     parse_type_def fuel C S frs pub cn r sels at_ [] tv = Ok (out, pub', false) ->
-    sels_ok g cov C S frs nested rt r sels = true -> tv_ok nested rt tv ->
+    sels_ok g cov C S frs at_ rt r sels = true -> tv_ok rt tv ->
     (at_ = true -> has_typename sels = true) -> table_ok cs out ->
     conf_obj_with (conf_val fc S frs) S rt (collect_scopes fc S frs rt [(false, sels)]) kv = true ->
     n >= fuel + 2 ->
@@ -127,9 +127,9 @@ Proof. exact obj_accepts. Qed.
 Print Assumptions C01_object_accepts.
 
 Theorem C01_object_covers :
-  forall C S frs fuel g nested pub cn rt r sels at_ tv out pub' cs fc kv n,
+  forall C S frs fuel g pub cn rt r sels at_ tv out pub' cs fc kv n,
     parse_type_def fuel C S frs pub cn r sels at_ [] tv = Ok (out, pub', false) ->
-    sels_ok g true C S frs nested rt r sels = true -> tv_ok nested rt tv ->
+    sels_ok g true C S frs at_ rt r sels = true -> tv_ok rt tv ->
     (at_ = true -> has_typename sels = true) -> table_ok cs out ->
     conf_obj_with (conf_val fc S frs) S rt (collect_scopes fc S frs rt [(false, sels)]) kv = true ->
     jwf (JObj kv) = true ->
@@ -214,7 +214,7 @@ Proof. exact typename_partition. Qed.
 Print Assumptions C01_typename_partition.
 
 (* ---- refutations on the faithful model: the witnesses are the examples of known_findings/C01.json.
-        C01_accepts_full itself is still refuted: a conditional __typename below the root stays a
+        C01_accepts_full itself is still refuted: a conditional __typename at an ABSTRACT position stays a
         required Literal (C01_accepts_refuted_conditional_typename) ---- *)
 Definition C0 : cfg := {| cf_snake := true; cf_scalars := [] |}.
 Definition std := [("Int", DScalar); ("String", DScalar); ("ID", DScalar); ("Boolean", DScalar)].
@@ -256,17 +256,6 @@ Example C01_conditional_spread_regression :
     accepts 30 cls (schema_enums S3b) (AClass "Q") (JObj [("a", JObj []); ("b", JObj [("x", JInt 1)])]) = true /\
     accepts 30 cls (schema_enums S3b) (AClass "Q") (JObj [("a", JObj []); ("b", JObj [])]) = false.
 Proof. eexists. split; [vm_compute; reflexivity|]. vm_compute. repeat split. Qed.
-
-(* a __typename under @skip/@include below the operation root stays a required Literal *)
-Theorem C01_accepts_refuted_conditional_typename : ~ C01_accepts_full.
-Proof.
-  intro H.
-  specialize (H 30 C0 S3 [] "query" "Q" []
-                [SField None "a" false [] (Some [SField None "__typename" true [] None; SField None "x" false [] None])]
-                "Query" _ (JObj [("a", JObj [("x", JInt 1)])]) eq_refl eq_refl eq_refl).
-  vm_compute in H. discriminate.
-Qed.
-Print Assumptions C01_accepts_refuted_conditional_typename.
 
 (* F27: a composite field selected directly and through a mixin fragment is not merged *)
 Definition S27 : schema :=
@@ -341,6 +330,31 @@ Example C01_F30_accepted :
     accepts 30 cls (schema_enums S30) (AClass "Q")
             (JObj [("named", JObj [("__typename", JStr "A"); ("name", JStr "n"); ("x", JInt 1)])]) = true.
 Proof. eexists. split; [vm_compute; reflexivity|]. vm_compute. reflexivity. Qed.
+
+(* F31 (repair proposed in fixes/C01-conditional-typename.diff): a __typename under @skip/@include in the
+   class of an OBJECT-typed field is Optional with default None like any other conditional field; the
+   former witness is a regression example *)
+Example C01_conditional_typename_regression :
+  exists cls,
+    all_classes 30 C0 S3 [] (DOp "query" "Q" []
+       [SField None "a" false [] (Some [SField None "__typename" true [] None; SField None "x" false [] None])]) = Ok cls /\
+    accepts 30 cls (schema_enums S3) (AClass "Q") (JObj [("a", JObj [("x", JInt 1)])]) = true /\
+    covers 30 cls (AClass "Q") (JObj [("a", JObj [("x", JInt 1)])]) = true /\
+    accepts 30 cls (schema_enums S3) (AClass "Q") (JObj [("a", JObj [("__typename", JStr "A"); ("x", JInt 1)])]) = true /\
+    accepts 30 cls (schema_enums S3) (AClass "Q") (JObj [("a", JObj [("__typename", JStr "B"); ("x", JInt 1)])]) = false.
+Proof. eexists. split; [vm_compute; reflexivity|]. vm_compute. repeat split. Qed.
+
+(* what remains of F31: where __typename discriminates (abstract position) it stays a required Literal
+   even under @skip/@include — pydantic demands a plain Literal for a discriminator *)
+Theorem C01_accepts_refuted_conditional_typename : ~ C01_accepts_full.
+Proof.
+  intro H.
+  specialize (H 30 C0 S30 [] "query" "Q" []
+                [SField None "named" false [] (Some [SField None "__typename" true [] None; SField None "name" false [] None])]
+                "Query" _ (JObj [("named", JObj [("name", JStr "n")])]) eq_refl eq_refl eq_refl).
+  vm_compute in H. discriminate.
+Qed.
+Print Assumptions C01_accepts_refuted_conditional_typename.
 
 (* ---- non-vacuity: a nested, aliased, abstract selection that IS accepted and covered ---- *)
 Example C01_full_hypotheses_satisfiable :
